@@ -262,6 +262,12 @@ func exec(op string) string {
 		pkt, _, _ := spec.ReadPacket(enc.NewBufferReader(wire))
 		in := w.base
 		tok := pitToken(7)
+		if len(f) == 4 { // send <face> <size> <token length>: a downstream's own PIT token (1..32 bytes)
+			tok = make([]byte, common.Atoi(f[3]))
+			for i := range tok {
+				tok[i] = byte(i + 1)
+			}
+		}
 		h := w.hooks[int(lf)]
 		if h == nil {
 			ls.SendPacket(dispatch.OutPkt{Pkt: &defn.Pkt{Name: name, L3: pkt, Raw: wire, PitToken: tok}, PitToken: tok, InFace: &in})
